@@ -138,6 +138,10 @@ def spotter(rng, d, kind="csv"):
     t0 = _t0(rng)
     epochs = np.array([int((t0 - np.datetime64("1970-01-01T00:00:00")) / np.timedelta64(1, "s")) + int(k) * 1800 + int(rng.integers(0, 60)) for k in rng.permutation(nt)])
     e = 10 ** rng.uniform(-3, 1, (nt, nf))
+    if rng.random() < 0.3:
+        # calm records (every band exactly zero) are records too: time stamp, position and a zero spectrum
+        e[rng.random(nt) < 0.4] = 0.0
+        e[int(rng.integers(nt))] = 0.0
     dmf, dsf = rng.uniform(0, 360, (nt, nf)), rng.uniform(8, 80, (nt, nf))
     lat, lon = rng.uniform(-60, 60, nt), rng.uniform(-180, 180, nt)
     et, ev = _parse("%.6f", e)
